@@ -29,11 +29,39 @@ DIRECTED = [
 ]
 
 
+def nested_templates():
+    """a function nested in a function sees its own context and the globals - never the locals of the function
+    around it (complete over: how the outer local is declared x how the inner function is written x whether a
+    global of the same name exists x where a dead statement after antwoord mentions a name)"""
+    out = []
+    outer_decl = {"param": ("functie buiten(naam) { %s }", "buiten(7)"),
+                  "stel": ("functie buiten() { stel naam = 7; %s }", "buiten()"),
+                  "block": ("functie buiten() { { stel naam = 7; %s } }", "buiten()"),
+                  "loop": ("functie buiten() { stel i = 0; stel r = 0; zolang i < 1 { i += 1; stel naam = 7; r = %s } r }", "buiten()")}
+    inner = {"named": "functie binnen(extra) { naam + extra } binnen(1)",
+             "anon": "stel binnen = functie(extra) { naam + extra }; binnen(1)",
+             "direct": "functie(extra) { naam + extra }(1)",
+             "deeper": "functie binnen() { functie diep(extra) { naam + extra } diep(1) } binnen()"}
+    for dk, (otpl, call) in outer_decl.items():
+        for ik, itxt in inner.items():
+            if dk == "loop" and ik in ("named", "deeper"):
+                continue          # a named function literal in expression position is excluded (DESIGN.md 4.3 item 13)
+            for glob in (True, False):
+                src = ("stel naam = 100; " if glob else "") + (otpl % itxt) + " " + call
+                out.append(src)
+    # unreachable code is still compiled: an undeclared name after antwoord is rejected before anything runs
+    for dead in ("nergens", "nergens = 1", "print(nergens)", "stel z = nergens", "als nergens { 1 }", "functie q() { nergens }"):
+        out.append("print(\"start\"); functie f(a) { antwoord a; %s } f(1)" % dead)
+        out.append("print(\"start\"); functie f(a) { als a > 0 { antwoord a; %s } 0 } f(1)" % dead)
+        out.append("print(\"start\"); functie f(a) { zolang ja { stop; %s } a } f(1)" % dead)
+    return out
+
+
 def run(ctx, log):
     rng = ctx.rng
     n = 500 if ctx.quick else 8000
     srcs, asts = progcheck.gen_sources(ctx, n, max_depth=3, floats=False)
-    base = DIRECTED + srcs
+    base = DIRECTED + nested_templates() + srcs
     obs = progcheck.pipeline(ctx, base, log, budget=20000, label="scoped-programs")
     comp, ev = obs["compile"], obs["eval"]
     for s, c in zip(base, comp):
@@ -41,7 +69,7 @@ def run(ctx, log):
     # metamorphic variants on the implementation itself
     v_src, v_kind, v_base = [], [], []
     for k, (a, s) in enumerate(zip(asts, srcs)):
-        i = len(DIRECTED) + k
+        i = len(base) - len(srcs) + k
         if not comp[i].startswith("OK"):
             continue
         names = sorted(x for x in astops.names_in(a) if x not in nlast.BUILTINS)
